@@ -180,10 +180,25 @@ func runC02(tier string) int {
 				}
 				return model.LeafForm(j.forms[i], i+1)
 			})
-			for pos := 0; pos < numCondPositions; pos++ {
-				sc := condProgram(cond, pos)
+			for pos := 0; pos < numCondPositions+2; pos++ {
+				sc := condProgram(cond, pos%numCondPositions)
 				scripts := []*model.Script{sc}
 				src := model.Print(scripts)
+				if pos >= numCondPositions {
+					// hosts other than a script statement: the second inline script of a mapscripts statement / the second
+					// inline entry of a table, after an inline script that branches itself (if / else form of the condition)
+					sc = condProgram(cond, 1)
+					body := model.PrintBody(sc.Body, 3)
+					first := "\t\t\tif (flag(G0)) {\n\t\t\t\tg0\n\t\t\t}\n\t\t\twhile (var(GV) < 2) {\n\t\t\t\tg1\n\t\t\t}\n"
+					if pos == numCondPositions {
+						sc.Name = "M_T1"
+						src = "mapscripts M {\n\tT0 {\n" + first + "\t}\n\tT1 {\n" + body + "\t}\n}\n"
+					} else {
+						sc.Name = "M_T0_1"
+						src = "mapscripts M {\n\tT0 [\n\t\tVAR_A, 0 {\n" + first + "\t\t}\n\t\tVAR_A, 1 {\n" + body + "\t\t}\n\t]\n}\n"
+					}
+					scripts = []*model.Script{sc}
+				}
 				r.Add("expressions_x_positions", 1)
 				for _, opt := range []bool{true, false} {
 					ok, rej, st, v, out := checkScripts(scripts, src, opt, machine.Lockstep, nil)
@@ -309,7 +324,7 @@ func runC02(tier string) int {
 	r.Assume("the generator's own expression tree is the reference (no parsing on the oracle side); '!' > '&&' > '||', left to right, short-circuit",
 		"lockstep: each operand read (which flag/var/trainer, strict or not) is an observable event; the environment answers with the operand's value and each side applies its own relation")
 	return r.Finish(r.Get("evaluations"), r.Get("nontrivial"),
-		"every And/Or tree with k leaves x decorations (redundant parentheses / negations on any node, bounded count) x leaf-form assignments (all 30 forms exhaustively for k<=2, rotations beyond, shared-operand variants for k<=3) x 13 condition positions (if, if/else, elif positions, while, do...while, branches with an empty body, and positions in which the first operand test of the expression is tested again in a neighbouring condition) x optimize on/off; plus chains of K leaves for every K up to the bound in the coverage in 5 operator patterns; each case explored in lockstep over all operand values; non-trivial = at least 2 leaves")
+		"every And/Or tree with k leaves x decorations (redundant parentheses / negations on any node, bounded count) x leaf-form assignments (all 30 forms exhaustively for k<=2, rotations beyond, shared-operand variants for k<=3) x 13 condition positions in a script, plus the if/else position in the second inline script of a mapscripts statement and in the second inline entry of a table (if, if/else, elif positions, while, do...while, branches with an empty body, and positions in which the first operand test of the expression is tested again in a neighbouring condition) x optimize on/off; plus chains of K leaves for every K up to the bound in the coverage in 5 operator patterns; each case explored in lockstep over all operand values; non-trivial = at least 2 leaves")
 }
 
 // firstLeafCopy returns a fresh leaf condition equal to the first operand test evaluated by c (polarity as written in the leaf).
